@@ -9,6 +9,10 @@ import Hw.Bitmap.ScanLemmas
 import Hw.Bitmap.RoundTripList
 import Hw.Bitmap.RoundTripTaskset
 import Hw.Bitmap.RoundTripHwloc
+import Hw.Bitmap.ScanCursorSafe
+import Hw.Bitmap.ScanCursorRefine
+import Hw.Bitmap.ScanCursorTransfer
+import Hw.Bitmap.ScanCursorDefined
 namespace Hw.Props.C04
 open Hw Hw.Bitmap
 
@@ -131,5 +135,102 @@ example : tasksetScan (text (Bitmap.chunksTaskset ⟨[0xf0#64, 0xffffffff0000000
     = .ok [some 0xf0#64, some 0xffffffff00000001#64] true := by decide
 example : (⟨[0xf0f#64, 0x1#64], true⟩ : Bitmap).count * 64 + 64 ≤ listMaxIndex ∧
     text (Bitmap.chunksList ⟨[0xf0f#64, 0x1#64], true⟩) = str "0-3,8-11,64,128-" := by decide
+
+/-! ## 4. memory safety of the parsers as the C walks the string (cursor-level models `Hw.Bitmap.Cursor`):
+for EVERY byte string `s` (stored as `s ++ [NUL]`, sign characters, huge numbers and embedded NULs included)
+every byte the parser or libc reads has index ≤ `s.length`, i.e. never past the terminating NUL -/
+
+open Hw.Bitmap.Cursor in
+theorem C04_sscanf_reads_in_bounds (s : List Byte) :
+    ∀ r, r ∈ (hwlocSscanfC s).log.reads → r ≤ s.length := (hwlocSscanfC_safe s).1
+
+open Hw.Bitmap.Cursor in
+theorem C04_list_sscanf_reads_in_bounds (s : List Byte) :
+    ∀ r, r ∈ (listSscanfC s).log.reads → r ≤ s.length := (listSscanfC_safe s).1
+
+open Hw.Bitmap.Cursor in
+theorem C04_taskset_sscanf_reads_in_bounds (s : List Byte) :
+    ∀ r, r ∈ (tasksetSscanfC s).log.reads → r ≤ s.length := (tasksetSscanfC_safe s).1
+
+/-- every store into `set->ulongs[]` made by the parsers themselves has `0 ≤ index < ulongs_count`, and
+`ulongs_count ≤ ulongs_allocated` whatever was allocated before (`prev`); every store into the taskset
+parser's `char ustr[17]` has index < 17.  (The list parser stores only through `hwloc_bitmap_zero/set/set_range`.) -/
+theorem C04_sscanf_writes_in_bounds (s : List Byte) (prev : Nat) :
+    ∀ w, w ∈ (Cursor.hwlocSscanfC s).log.writes →
+      0 ≤ w.1 ∧ w.1 < (w.2 : Int) ∧ w.2 ≤ Cursor.allocFor prev w.2 :=
+  fun w hw => ⟨((Cursor.hwlocSscanfC_safe s).2.1 w hw).1, ((Cursor.hwlocSscanfC_safe s).2.1 w hw).2, (Cursor.le_allocFor prev w.2).1⟩
+
+theorem C04_list_sscanf_writes_in_bounds (s : List Byte) (prev : Nat) :
+    ∀ w, w ∈ (Cursor.listSscanfC s).log.writes →
+      0 ≤ w.1 ∧ w.1 < (w.2 : Int) ∧ w.2 ≤ Cursor.allocFor prev w.2 :=
+  fun w hw => ⟨((Cursor.listSscanfC_safe s).2.1 w hw).1, ((Cursor.listSscanfC_safe s).2.1 w hw).2, (Cursor.le_allocFor prev w.2).1⟩
+
+theorem C04_taskset_sscanf_writes_in_bounds (s : List Byte) (prev : Nat) :
+    (∀ w, w ∈ (Cursor.tasksetSscanfC s).log.writes →
+      0 ≤ w.1 ∧ w.1 < (w.2 : Int) ∧ w.2 ≤ Cursor.allocFor prev w.2) ∧
+    (∀ u, u ∈ (Cursor.tasksetSscanfC s).log.ustr → u < 17) :=
+  ⟨fun w hw => ⟨((Cursor.tasksetSscanfC_safe s).2.1 w hw).1, ((Cursor.tasksetSscanfC_safe s).2.1 w hw).2, (Cursor.le_allocFor prev w.2).1⟩,
+   (Cursor.tasksetSscanfC_safe s).2.2⟩
+
+/-! non-vacuity: the logs are not empty — the strings of finding F02 and a signed number -/
+example : (Cursor.hwlocSscanfC (str "")).log.reads.contains 0 = true ∧ (Cursor.hwlocSscanfC (str "")).log.maxRead = 0 := by decide
+example : (Cursor.hwlocSscanfC (str "0x1,")).log.maxRead = 4 ∧ (Cursor.hwlocSscanfC (str "0x1,")).log.writes = [((0 : Int), 1)] := by decide
+example : (Cursor.listSscanfC (str "1,x,2")).res = .fail ∧ (Cursor.listSscanfC (str "1,x,2")).log.maxRead = 2 := by decide
+example : (Cursor.tasksetSscanfC (str "0xf...f12")).log.writes = [((0 : Int), 1)] ∧
+    (Cursor.tasksetSscanfC (str "0xf...f12")).log.ustr.length = 3 ∧ (Cursor.tasksetSscanfC (str "0xf...f12")).log.maxRead = 9 := by decide
+example : (Cursor.hwlocSscanfC (str "-1")).res = .ok [some 0xffffffffffffffff#64] false := by decide
+
+/-! ## 5. refinement: on a C string (`NoNul`: the bytes before the terminator) on which the structural model
+of `Hw.Bitmap.Scan` is defined (no sign character; list indexes < 2^21), the cursor-level model returns exactly
+the structural model's verdict and words.  Outside that domain the cursor-level model is still total and the
+theorems of section 4 still hold. -/
+
+theorem C04_sscanf_refines (s : List Byte) (hs : Cursor.NoNul s) (hsup : hwlocScan s ≠ .unsupported) :
+    (Cursor.hwlocSscanfC s).res.toScan = hwlocScan s := Cursor.hwlocSscanfC_refine s hs hsup
+
+theorem C04_list_sscanf_refines (s : List Byte) (hs : Cursor.NoNul s) (hsup : listScan s ≠ .unsupported) :
+    (Cursor.listSscanfC s).res.toScan = listScan s := Cursor.listSscanfC_refine s hs hsup
+
+theorem C04_taskset_sscanf_refines (s : List Byte) (hs : Cursor.NoNul s) (hsup : tasksetScan s ≠ .unsupported) :
+    (Cursor.tasksetSscanfC s).res.toScan = tasksetScan s := Cursor.tasksetSscanfC_refine s hs hsup
+
+/-- `hwloc_bitmap_sscanf` returns (0 or -1) on every C string: its `assert(count > 0)` never fires
+(the other two parsers contain no assert: their models have no such outcome by construction) -/
+theorem C04_sscanf_returns (s : List Byte) (hs : Cursor.NoNul s) :
+    (Cursor.hwlocSscanfC s).res = .fail ∨ ∃ ws inf, (Cursor.hwlocSscanfC s).res = .ok ws inf := by
+  have h1 := Cursor.hwlocSscanfC_no_assert s hs
+  cases h : (Cursor.hwlocSscanfC s).res with
+  | ok ws inf => exact Or.inr ⟨ws, inf, rfl⟩
+  | fail => exact Or.inl rfl
+  | assertFail => exact (h1 h).elim
+  | okBig => exact (Cursor.hwlocSscanfC_not_big s h).elim      -- produced by the list parser only
+
+/-- a returned 0 means every word of the destination was written — for EVERY byte string, sign characters and
+huge numbers included (proved on the cursor-level models directly, not by transfer) -/
+theorem C04_cursor_defined (s : List Byte) :
+    (Cursor.hwlocSscanfC s).res.defined = true ∧ (Cursor.listSscanfC s).res.defined = true ∧
+    (Cursor.tasksetSscanfC s).res.defined = true :=
+  ⟨Cursor.hwlocSscanfC_defined s, Cursor.listSscanfC_defined s, Cursor.tasksetSscanfC_defined s⟩
+
+/-- round trip through the cursor-level (memory-safe) parsers: the printed text holds no NUL, is accepted, and
+denotes the same set -/
+theorem C04_cursor_roundtrip (b : Bitmap) (hinv : b.Inv) :
+    (∃ ws inf, (Cursor.hwlocSscanfC (text b.chunksHwloc)).res = .ok (ws.map some) inf ∧ ∀ n, (Bitmap.mk ws inf).mem n = b.mem n) ∧
+    (∃ ws inf, (Cursor.tasksetSscanfC (text b.chunksTaskset)).res = .ok (ws.map some) inf ∧ ∀ n, (Bitmap.mk ws inf).mem n = b.mem n) ∧
+    (b.count * 64 + 64 ≤ listMaxIndex →
+      ∃ ws inf, (Cursor.listSscanfC (text b.chunksList)).res = .ok (ws.map some) inf ∧ ∀ n, (Bitmap.mk ws inf).mem n = b.mem n) :=
+  ⟨Cursor.cursor_roundtrip_hwloc b hinv, Cursor.cursor_roundtrip_taskset b hinv, Cursor.cursor_roundtrip_list b hinv⟩
+
+/-! non-vacuity: strings meeting the hypotheses, one per format, incl. the F02 strings; and one outside the
+structural domain (sign) where only the cursor-level model answers -/
+example : Cursor.NoNul (str "0xf...f,,0x1") ∧ hwlocScan (str "0xf...f,,0x1") ≠ .unsupported ∧
+    (Cursor.hwlocSscanfC (str "0xf...f,,0x1")).res = .ok [some 0x1#64] true := by decide
+example : Cursor.NoNul (str "1,3-5, 64-") ∧ listScan (str "1,3-5, 64-") ≠ .unsupported ∧
+    (Cursor.listSscanfC (str "1,3-5, 64-")).res = .ok [some 0x3a#64, some 0xffffffffffffffff#64] true := by decide
+example : Cursor.NoNul (str "0xf...f12") ∧ tasksetScan (str "0xf...f12") ≠ .unsupported ∧
+    (Cursor.tasksetSscanfC (str "0xf...f12")).res = .ok [some 0xffffffffffffff12#64] true := by decide
+example : hwlocScan (str "+f,-2") = .unsupported ∧
+    (Cursor.hwlocSscanfC (str "+f,-2")).res = .ok [some 0xfffffffffffffffe#64] false := by decide
+example : (Cursor.listSscanfC (str "4194304")).big = true ∧ (Cursor.listSscanfC (str "4194304")).res = .okBig := by decide
 
 end Hw.Props.C04
